@@ -105,19 +105,22 @@ def rule_position_helpers(facts, rid):
             if strip(arm["pat"]).get("k") == "Wild":
                 continue
             helpers = set()
-            for n in find(arm["body"], lambda n: n.get("k") == "Path"):
-                d = n["path"].get("def")
-                if (n["path"].get("dk") or "") == "Fn" and takes_pos(d):
-                    helpers.add(d)
-                i = n["path"].get("id")
-                if i in inits:
-                    x = strip(inits[i])
-                    if x.get("k") == "Path" and (x["path"].get("dk") or "") == "Fn" and takes_pos(x["path"].get("def")):
-                        helpers.add(x["path"]["def"])
-                    if x.get("k") == "Closure":  # a local closure shared by several arms: the helpers it names itself
-                        for n2 in find(x, lambda n: n.get("k") == "Path" and (n["path"].get("dk") or "") == "Fn"):
-                            if takes_pos(n2["path"].get("def")):
-                                helpers.add(n2["path"]["def"])
+
+            def scan(expr, depth=0):
+                for n in find(expr, lambda n: n.get("k") in ("Path", "MethodCall")):
+                    if n["k"] == "MethodCall":
+                        d = n["m"].get("res") or n["m"].get("def")
+                        if takes_pos(d):
+                            helpers.add(d)
+                        continue
+                    d = n["path"].get("def")
+                    if (n["path"].get("dk") or "") in ("Fn", "AssocFn") and takes_pos(d):
+                        helpers.add(d)
+                    i = n["path"].get("id")
+                    if i in inits and depth < 3:
+                        # a local bound to a helper, to a tuple of helpers or to a closure shared by several arms
+                        scan(inits[i], depth + 1)
+            scan(arm["body"])
             return helpers, arm["sp"]
         t6.violate(f"{what}/arm", f"{what}: no arm decides {value}")
         return None
